@@ -515,6 +515,10 @@ class Engine:
 
     def _verify(self, qualname, con, variant, vtag):
         node, info, src = self.src.function(qualname.split('#')[0])     # 'q#tag': a second contract for the same function
+        decs = [ast.unparse(d) for d in getattr(node, 'decorator_list', []) if ast.unparse(d) not in ('staticmethod', 'classmethod')]
+        if decs:
+            raise Unsupported('%s is decorated with %s: the verified text would be the undecorated body, not what a call runs'
+                              % (qualname, ', '.join('@' + d for d in decs)))
         if getattr(con, 'slice', None) is not None:
             # statement slice: the contiguous top-level statements of the function body from the one whose first line contains
             # slice[0] up to (and including) the one whose first line contains slice[1]; the free variables are the contract's
